@@ -228,6 +228,7 @@ def e2e_cases(pid, tier, rng):
                     0xFFFFFF]
             longest = max(len(l) for l in lay.lines)
             bss += [max(64, longest - 1), max(64, longest), longest + 1]
+        bss = [min(max(64, b), 0xFFFFFF) for b in bss]      # the CLI accepts 64 <= BLOCKSZ <= 16777215
         if tier == "quick":
             bss = sorted(set(bss))
             if len(bss) > 10:
